@@ -202,6 +202,23 @@ pub fn build_graph(gs: &GraphSpec) -> Result<(G, Built), BuildPanic> {
     r.map_err(|p| BuildPanic(panic_msg(&p)))
 }
 
+#[cfg(feature = "interruptible")]
+fn new_shared_intr(rs: &RunSpec) -> Option<SharedIntr> {
+    use interruptible::InterruptibilityState;
+    let (tx, rx) = tokio::sync::mpsc::channel::<interruptible::InterruptSignal>(16);
+    let state = match rs.strategy {
+        Strategy::Ignore => InterruptibilityState::new_ignore_interruptions(rx.into()),
+        Strategy::FinishCurrent => InterruptibilityState::new_finish_current(rx.into()),
+        Strategy::PollNextN(n) => InterruptibilityState::new_poll_next_n(rx.into(), n),
+        Strategy::NonInterruptible => return None,
+    };
+    Some(SharedIntr { state, tx, signalled: false })
+}
+#[cfg(not(feature = "interruptible"))]
+fn new_shared_intr(_rs: &RunSpec) -> Option<SharedIntr> {
+    None
+}
+
 /// The graph of a spec, straight from the builder (single calls only).
 fn build_plain(gs: &GraphSpec) -> Option<G> {
     let mut b = FnGraphBuilder::<SimFn>::new();
@@ -344,13 +361,19 @@ fn rec_tryfold(r: Result<fn_graph::StreamOutcome<Vec<usize>>, usize>) -> Outcome
 }
 
 #[cfg(feature = "interruptible")]
-fn make_opts<'a>(rs: &RunSpec, w: &Rc<World>, run: usize) -> StreamOpts<'a, 'a> {
+fn make_opts<'a>(rs: &RunSpec, w: &Rc<World>, run: usize, shared: Option<&'a mut SharedIntr>) -> StreamOpts<'a, 'a> {
     use interruptible::InterruptibilityState;
     let mut o = StreamOpts::new();
     if rs.reverse {
         for _ in 0..rs.rev_calls.max(1) {
             o = o.rev();
         }
+    }
+    if let (Some(sh), true) = (shared, rs.share_intr_state && rs.strategy.has_channel()) {
+        w.runs.borrow_mut()[run].intr_tx = Some(sh.tx.clone());
+        o = o.interruptibility_state(sh.state.reborrow());
+        o = o.interrupted_next_item_include(rs.include);
+        return o;
     }
     if rs.strategy.has_channel() {
         let (tx, rx) = tokio::sync::mpsc::channel::<interruptible::InterruptSignal>(16);
@@ -375,7 +398,7 @@ fn make_opts<'a>(rs: &RunSpec, w: &Rc<World>, run: usize) -> StreamOpts<'a, 'a> 
 }
 
 #[cfg(not(feature = "interruptible"))]
-fn make_opts<'a>(rs: &RunSpec, _w: &Rc<World>, _run: usize) -> StreamOpts<'a, 'a> {
+fn make_opts<'a>(rs: &RunSpec, _w: &Rc<World>, _run: usize, _shared: Option<&'a mut SharedIntr>) -> StreamOpts<'a, 'a> {
     let mut o = StreamOpts::new();
     if rs.reverse {
         for _ in 0..rs.rev_calls.max(1) {
@@ -411,11 +434,11 @@ where
 }
 
 /// Creates the real future / stream for a run.
-pub fn make_root<'g>(acc: Access<'g>, rs: &RunSpec, w: &Rc<World>, run: usize) -> Root<'g> {
+pub fn make_root<'g>(acc: Access<'g>, rs: &RunSpec, w: &Rc<World>, run: usize, shared: Option<&'g mut SharedIntr>) -> Root<'g> {
     let api = rs.api;
     let limit = rs.limit;
     let opts = if api.has_opts() {
-        Some(make_opts(rs, w, run))
+        Some(make_opts(rs, w, run, shared))
     } else {
         None
     };
@@ -708,6 +731,20 @@ pub struct DriveResult {
 /// `excl`: give run 0 exclusive access (only valid with exactly one run).
 pub type CarriedRefs = Vec<Option<FnRef<'static, SimFn>>>;
 
+/// An interruptibility state (and the sender of its channel) that outlives a run and is
+/// handed to several runs through `reborrow()`.
+#[cfg(feature = "interruptible")]
+pub struct SharedIntr {
+    pub state: interruptible::InterruptibilityState<'static, 'static>,
+    pub tx: crate::world::IntrTx,
+    /// a signal was delivered to the channel during an earlier run
+    pub signalled: bool,
+}
+#[cfg(not(feature = "interruptible"))]
+pub struct SharedIntr {
+    pub signalled: bool,
+}
+
 pub fn drive<'g>(
     graph: &'g mut G,
     built: &Built,
@@ -715,7 +752,7 @@ pub fn drive<'g>(
     scheduler: Box<dyn Scheduler>,
     autostart: bool,
 ) -> DriveResult {
-    drive_carry(graph, built, specs, scheduler, autostart, Vec::new()).0
+    drive_carry(graph, built, specs, scheduler, autostart, Vec::new(), None).0
 }
 
 /// `carry_in`: FnRefs left over from the previous run (slots of run 0).  Returns
@@ -728,6 +765,7 @@ pub fn drive_carry<'g>(
     scheduler: Box<dyn Scheduler>,
     autostart: bool,
     carry_in: CarriedRefs,
+    shared: Option<&'g mut SharedIntr>,
 ) -> (DriveResult, Vec<FnRef<'static, SimFn>>) {
     let coop = specs.iter().any(|s| s.coop);
     if coop {
@@ -738,9 +776,9 @@ pub fn drive_carry<'g>(
             static RT: tokio::runtime::Runtime =
                 tokio::runtime::Builder::new_current_thread().build().expect("harness: runtime");
         }
-        RT.with(|rt| rt.block_on(drive_async(graph, built, specs, scheduler, autostart, true, carry_in)))
+        RT.with(|rt| rt.block_on(drive_async(graph, built, specs, scheduler, autostart, true, carry_in, shared)))
     } else {
-        let mut fut = Box::pin(drive_async(graph, built, specs, scheduler, autostart, false, carry_in));
+        let mut fut = Box::pin(drive_async(graph, built, specs, scheduler, autostart, false, carry_in, shared));
         let waker = futures::task::noop_waker();
         let mut cx = Context::from_waker(&waker);
         match fut.as_mut().poll(&mut cx) {
@@ -798,8 +836,10 @@ async fn drive_async<'g>(
     autostart: bool,
     coop: bool,
     carry_in: CarriedRefs,
+    shared: Option<&'g mut SharedIntr>,
 ) -> (DriveResult, Vec<FnRef<'static, SimFn>>) {
     assert!(specs.len() <= MAX_RUNS);
+    let mut shared_intr = shared;
     let n = built.n;
     let w = World::new();
     *w.scheduler.borrow_mut() = Some(scheduler);
@@ -851,7 +891,15 @@ async fn drive_async<'g>(
                 Access::Shared(shared.expect("harness: shared access"))
             };
             w.push(Ev::Start { run: r });
-            let res = catch_unwind(AssertUnwindSafe(|| make_root(acc, &specs[r], &w, r)));
+            let sh = if r == 0 { shared_intr.take() } else { None };
+            let pre = sh.as_ref().map_or(false, |s| s.signalled) && specs[r].share_intr_state;
+            let res = catch_unwind(AssertUnwindSafe(|| make_root(acc, &specs[r], &w, r, sh)));
+            if pre {
+                // the shared state already holds (or its channel already carries) a signal
+                // from an earlier run: for the oracles this run begins interrupted
+                w.push(Ev::Interrupt { run: r, delivered: true, exact: true });
+                w.fire("run_started_with_state_interrupted_by_an_earlier_run");
+            }
             let mut runs = w.runs.borrow_mut();
             runs[r].started = true;
             match res {
@@ -1506,7 +1554,11 @@ pub fn run_case(
             );
             drop(fresh);
             let mut carry: Vec<FnRef<'static, SimFn>> = Vec::new();
+            let mut shared_intr: Option<SharedIntr> = None;
             for (i, rs) in case.runs.iter().enumerate() {
+                if rs.share_intr_state && rs.strategy.has_channel() && shared_intr.is_none() {
+                    shared_intr = new_shared_intr(rs);
+                }
                 // FnRefs the previous run's consumer walked away with (they borrow the
                 // graph, not the stream) fill this run's slots; surplus ones are dropped now
                 let slots = rs.carried_slots as usize;
@@ -1527,7 +1579,15 @@ pub fn run_case(
                 } else {
                     mk_sched(i)
                 };
-                let (d, left) = drive_carry(&mut graph, &built, std::slice::from_ref(rs), sched, true, carry_in);
+                let sh = if rs.share_intr_state { shared_intr.as_mut() } else { None };
+                let (d, left) = drive_carry(&mut graph, &built, std::slice::from_ref(rs), sched, true, carry_in, sh);
+                if rs.share_intr_state {
+                    if let Some(s) = shared_intr.as_mut() {
+                        if d.events.iter().any(|e| matches!(e, Ev::Interrupt { delivered: true, .. })) {
+                            s.signalled = true;
+                        }
+                    }
+                }
                 carry = left;
                 drives.push(d);
             }
